@@ -152,6 +152,7 @@ def canaries(cases):
     c["inj"] = {"tp": [0, 0, 40, 50, 40, 51, 40, 0, 0], "ts": "none"}
     out.append(("context without span expected to be injected", c))
     for i, (_, c) in enumerate(out):
+        c["orig"] = c["id"]
         c["id"] = 10 ** 9 + i
     return out
 
@@ -217,14 +218,16 @@ def replay_cases(ctx, exe, cases):
     n = 12 if ctx.tier == "thorough" else 3
     can = canaries(cases)
     cres = propagation.run_cases(ctx, exe, [c for _, c in can], n, procs=1, tag="canary")
+    results = propagation.run_cases(ctx, exe, cases, n, procs=4)
     for why, c in can:
         r = cres.get(c["id"])
-        if r is not None and r.get("v") == "crash":
-            continue        # the real code crashed on a legitimate input: reported below with the real cases
-        if r is None or r.get("v") != "bad":
-            raise Broken("binding canary not detected (%s): %s" % (why, r))
+        orig = results.get(c["orig"], {}).get("v")
+        if r is not None and r.get("v") in ("bad", "crash"):
+            continue
+        if orig in ("bad", "crash") or (orig is None and any(x.get("v") == "crash" for x in results.values())):
+            continue        # the real code already fails on the uncorrupted case (reported below)
+        raise Broken("binding canary not detected (%s): %s" % (why, r))
     ctx.extra["canaries_detected"] = len(can)
-    results = propagation.run_cases(ctx, exe, cases, n, procs=4)
     cnt = classify(ctx, cases, results, n)
     if not ctx.violations and (cnt["valid"] == 0 or cnt["unchanged"] == 0):
         raise Broken("vacuity: the real propagator never accepted / never rejected: %s" % cnt)
@@ -241,22 +244,31 @@ def replay_cases(ctx, exe, cases):
 
 def record_validate(ctx, exe):
     n = 60000 if ctx.tier == "thorough" else 9000
-    h = hrun.run_harness(exe, ["record", ctx.seed, n], timeout=900)
-    lines = [ln for ln in h.lines if ln.startswith("{")]
-    crash = None
-    if h.crashed or h.rc != 0:
-        if h.rc == 9:
-            raise Broken("recorder failed: " + h.err[-1500:])
-        crash = lines.pop() if lines and '"v":"crash"' in lines[-1] else "{}"
-        ctx.violation("the real propagator crashed / sanitizer report while recording: %s\n%s" % (crash, h.err[-1500:]),
-                      {"harness": "c09_w3c", "mode": "record", "seed": ctx.seed, "n": n, "case": json.loads(crash)})
+    h = hrun.run_harness(exe, ["record", ctx.seed, n], timeout=900, env=propagation.SAN_ENV)
+    lines, crash = [], None
+    for ln in h.lines:
+        try:
+            o = json.loads(ln)
+        except ValueError:
+            continue                      # a line cut short by a crash
+        if o.get("v") == "crash":
+            crash = o
+        elif "e" in o:
+            lines.append(ln)
+    if h.rc == 9 or h.timed_out:
+        raise Broken("recorder failed: " + h.err[-1500:])
+    if h.crashed or h.rc != 0 or crash:
+        ctx.violation("the real propagator crashed / sanitizer report while recording, input %s\n%s" % (
+            json.dumps((crash or {}).get("concrete")), h.err[-1500:]),
+            {"harness": "c09_w3c", "mode": "record", "seed": ctx.seed, "n": n, "concrete": (crash or {}).get("concrete")})
+        crash = crash or {}
     elif len(lines) != n:
         raise Broken("recorder printed %d of %d events" % (len(lines), n))
     known = sorted(set(ALLDEVS) & ctx.known_devs())
     cfg = _cfg(ctx, "trace.cfg", TRACE_CFG % {"dev": _devset(known)})
     res = propagation.validate_events(ctx, MODULE + "Trace", cfg, lines, chunk=3000, parallel=4, tag="tv")
     kinds = res["kinds"]
-    if not crash and any(kinds.get(k, 0) == 0 for k in ("accept", "either", "reject", "inject", "noinject")):
+    if crash is None and any(kinds.get(k, 0) == 0 for k in ("accept", "either", "reject", "inject", "noinject")):
         raise Broken("vacuity: recorded inputs do not cover every kind: %s" % kinds)
     for d, at in res["devs"].items():
         ev = json.loads(lines[at])
